@@ -162,6 +162,25 @@ class Unit:
                         for x, (n_, t) in zip(ls, alt['locals']):
                             if x.get('name') != n_ and n_:
                                 r[x['id']] = n_
+                    elif len(alt['locals']) == len(ls):
+                        # declarations were reordered as well: the same types with the same multiplicities - locals of one
+                        # type keep their relative order, names are handed out per type
+                        def norm(t):
+                            return t.replace('const ', '').strip()
+                        want, have = {}, {}
+                        for n_, t in alt['locals']:
+                            want.setdefault(norm(t), []).append(n_)
+                        for x in ls:
+                            have.setdefault(norm(qual_type(x)), []).append(x)
+                        if {t: len(v) for t, v in want.items()} == {t: len(v) for t, v in have.items()}:
+                            cur = {x.get('name') for x in ls}
+                            for t, xs in have.items():
+                                names_t = want[t]
+                                if {x.get('name') for x in xs} == set(names_t):
+                                    continue          # same names, only moved
+                                for x, n_ in zip(xs, names_t):
+                                    if x.get('name') != n_ and n_:
+                                        r[x['id']] = n_
                     ren = r
                     break
             if not ren:
